@@ -80,10 +80,16 @@ func certs() []tc {
 	noski := mk("noski", nil, ec())
 	out := []tc{{name: "victim", leaf: victim}, {name: "forged", leaf: forged}, {name: "other", leaf: other}, {name: "noski", leaf: noski}}
 	for i := range out {
-		out[i].want = result(out[i].leaf) // outside the scheduler: a call on its own
+		// the reference: a certificate is valid exactly when its 20 byte SKI is the hash of its own key
+		l := out[i].leaf
+		if len(l.SubjectKeyId) == 20 && hex.EncodeToString(l.SubjectKeyId) == hex.EncodeToString(spkiHash(l)) {
+			out[i].want = "ski:" + hex.EncodeToString(l.SubjectKeyId)
+		} else {
+			out[i].want = "error"
+		}
 	}
-	if out[0].want != "ski:"+hex.EncodeToString(victim.SubjectKeyId) || out[1].want != "error" {
-		hx.EngineError("unexpected sequential results: victim %s forged %s", out[0].want, out[1].want)
+	if out[0].want == "error" || out[1].want != "error" {
+		hx.EngineError("certificate generation: victim %s forged %s", out[0].want, out[1].want)
 	}
 	return out
 }
@@ -102,7 +108,7 @@ func body(cs []tc, idx []int) func() {
 				if cs[i].want == "error" {
 					kind = "accepted-although-invalid"
 				}
-				simrt.Fail("C02|concurrent|"+kind+"|"+cs[i].name, "SkiFromCertificate(%s) returned %q while other certificates were being validated, alone it returns %q", cs[i].name, got[n], cs[i].want)
+				simrt.Fail("C02|concurrent|"+kind+"|"+cs[i].name, "SkiFromCertificate(%s) returned %q (%d validation(s) running at the same time), the certificate's own key says %q", cs[i].name, got[n], len(idx), cs[i].want)
 			}
 		}
 		for _, r := range simrt.Races() {
@@ -122,7 +128,7 @@ func main() {
 		pb = 3
 	}
 	var scens []hx.Scenario
-	sets := [][]int{{1, 0}, {0, 1}, {1, 2}, {1, 3}, {0, 2}, {1, 1}, {1, 0, 2}, {1, 0, 0}, {3, 1, 0}}
+	sets := [][]int{{0}, {1}, {3}, {1, 0}, {0, 1}, {1, 2}, {1, 3}, {0, 2}, {1, 1}, {1, 0, 2}, {1, 0, 0}, {3, 1, 0}}
 	for _, s := range sets {
 		name := "certx:"
 		for _, i := range s {
@@ -132,6 +138,15 @@ func main() {
 	}
 	if r.Worker {
 		hx.SWorker(scens)
+		return
+	}
+	// executions are only independent of each other if a validation leaves nothing behind: the forgery is validated
+	// before and after the genuine certificate it copies its SKI from (in this process, outside the scheduler)
+	seq := []string{result(cs[1].leaf), result(cs[0].leaf), result(cs[1].leaf), result(cs[3].leaf)}
+	if seq[0] != cs[1].want || seq[1] != cs[0].want || seq[2] != cs[1].want || seq[3] != cs[3].want {
+		r.Finish(hx.Result{Level: "model_checking", Coverage: map[string]any{"exhaustive": false, "concurrent_validation_scenarios": 0},
+			Violations: []hx.Violation{{Key: "C02|sequence|history-dependent-validation", Msg: fmt.Sprintf("validating forged, victim, forged, no-SKI one after the other returned %v, each certificate on its own gives [%s %s %s %s]: a validation depends on what was validated before", seq, cs[1].want, cs[0].want, cs[1].want, cs[3].want),
+				Replay: map[string]any{"sequence": []string{"forged", "victim", "forged", "noski"}}}}})
 		return
 	}
 	hx.MaybeReplay(r, scens)
